@@ -293,7 +293,12 @@ pub trait Quantity: Copy + Sized + Mul<AmountT> {
             fmt::Display::fmt(&self.amount(), form)
         } else {
             let tmp: String;
+            #[cfg(feature = "fpdec")]
             let amnt_non_neg = self.amount() >= AMNT_ZERO;
+            // Negative zero is formatted with a minus sign, so it has to be
+            // treated like a negative amount here.
+            #[cfg(not(feature = "fpdec"))]
+            let amnt_non_neg = self.amount().is_sign_positive();
             #[cfg(feature = "fpdec")]
             let abs_amnt = self.amount().abs();
             #[cfg(not(feature = "fpdec"))]
